@@ -10,6 +10,8 @@ import RtcModel.Lemmas.IcePrio
 import RtcModel.Lemmas.IceCand
 import RtcModel.Lemmas.Turn
 import RtcModel.Lemmas.IceUri
+import RtcModel.Lemmas.IcePairs
+import RtcModel.Lemmas.IceAuthCred
 
 namespace RtcModel.Theorems.C16
 open RtcModel.Stun RtcModel.StunRfc RtcModel.IcePrio RtcModel.IceCand RtcModel.Turn RtcModel.C16Bytes RtcModel.Generated
@@ -366,6 +368,71 @@ theorem pair_priority_collision_witness :
 /-- the overflow corner is real (debug builds panic, release builds wrap): both priorities `2^32−1` -/
 theorem pair_priority_overflow_witness : ¬ pairPriority .controlling (2 ^ 32 - 1) (2 ^ 32 - 1) < 2 ^ 64 := by
   decide
+
+/-! ### the ordering of candidate pairs the stack actually computes (`perform_connectivity_checks_async`) -/
+
+/-- the checks are started in non-increasing pair-priority order (RFC 8445 §6.1.2.3), for every candidate set
+and either role (without the optional `prefer_srflx_over_natted_host` re-sort) -/
+theorem checks_in_pair_priority_order (role : Role) (locals remotes : List IcePairs.PCand) :
+    IcePairs.SortedDesc (IcePairs.prio role) (IcePairs.checkOrder role false locals remotes) := by
+  simp only [IcePairs.checkOrder, Bool.false_eq_true, ↓reduceIte, IcePairs.sortByPriority]
+  exact IcePairs.sorted_stableSort _ _
+
+/-- **pair_order_agree_stack**: agent A (controlling, locals `LA`, remotes `LB`) and agent B (controlled, locals
+`LB`, remotes `LA`) check the SAME pairs in the SAME order — provided (1) the formation filter keeps a pair on
+one side iff it keeps the swapped pair on the other (it is not symmetric in general: loopback→non-loopback and
+the controlled agent's passive-TCP locals are dropped on one side only), (2) no pair is formed twice, and (3)
+distinct pairs have distinct pair priorities. The real `sort_by_key` is stable, so without (3) the order
+depends on the candidate order of each side — see `pair_order_tie_witness`. -/
+theorem pair_order_agree_stack (LA LB : List IcePairs.PCand)
+    (hform : ∀ a ∈ LA, ∀ b ∈ LB, IcePairs.pairOk .controlling a b = IcePairs.pairOk .controlled b a)
+    (hnA : (IcePairs.formPairs .controlling LA LB).Nodup) (hnB : (IcePairs.formPairs .controlled LB LA).Nodup)
+    (hd : ∀ p ∈ IcePairs.formPairs .controlling LA LB, ∀ q ∈ IcePairs.formPairs .controlling LA LB, p ≠ q →
+      IcePairs.prio .controlling p ≠ IcePairs.prio .controlling q) :
+    (IcePairs.checkOrder .controlled false LB LA).map Prod.swap = IcePairs.checkOrder .controlling false LA LB :=
+  IcePairs.check_lists_agree LA LB hform hnA hnB hd
+
+/-- non-vacuity: one host + one server-reflexive candidate on each side -/
+example : let h (i : Nat) : IcePairs.PCand := ⟨i, priorityFor .host 1, false, 1, false, true, false, true, true⟩
+    let r (i : Nat) : IcePairs.PCand := ⟨i, priorityFor .srflx 1, false, 1, false, true, false, false, false⟩
+    let LA := [h 1, r 2]; let LB := [h 3, r 4]
+    (∀ a ∈ LA, ∀ b ∈ LB, IcePairs.pairOk .controlling a b = IcePairs.pairOk .controlled b a) ∧
+    (IcePairs.formPairs .controlling LA LB).Nodup ∧ (IcePairs.formPairs .controlled LB LA).Nodup ∧
+    (∀ p ∈ IcePairs.formPairs .controlling LA LB, ∀ q ∈ IcePairs.formPairs .controlling LA LB, p ≠ q →
+      IcePairs.prio .controlling p ≠ IcePairs.prio .controlling q) := by
+  decide
+
+/-- **pair_order_tie_witness**: the "same ordering" clause does NOT hold for the stack in general.
+`priority_for` uses the constant local preference 65535, so two host candidates of one component on a
+multi-homed agent get EQUAL priorities (RFC 8445 §5.1.2 wants them unique); with two such candidates on each
+side all four pairs tie and the stable sort leaves each agent with its own nested-loop order:
+A checks (a1,b1),(a1,b2),(a2,b1),(a2,b2), B checks (a1,b1),(a2,b1),(a1,b2),(a2,b2). (The checks run
+concurrently and the controlling agent's nomination is authoritative, so this does not by itself break a
+session; it is recorded as a deviation, not repaired.) -/
+theorem pair_order_tie_witness :
+    let h (i : Nat) : IcePairs.PCand := ⟨i, priorityFor .host 1, false, 1, false, true, false, true, true⟩
+    (IcePairs.checkOrder .controlled false [h 3, h 4] [h 1, h 2]).map Prod.swap ≠
+      IcePairs.checkOrder .controlling false [h 1, h 2] [h 3, h 4] := by
+  decide
+
+/-- **connectivity_check_accepted_by_peer**: the connectivity check / nomination request the agent composes
+(`perform_binding_check`: SOFTWARE, USERNAME `remote:local`, PRIORITY, ICE-CONTROLLING or ICE-CONTROLLED, optional
+USE-CANDIDATE; MESSAGE-INTEGRITY under the REMOTE password; FINGERPRINT) passes the credential check of a
+peer running this same stack with that ufrag and password — for every role, priority, tie-breaker and flag. -/
+theorem connectivity_check_accepted_by_peer (P : Prims) (tx lu ru rpwd : Bytes) (role : Role) (prio tie : Nat) (nom : Bool)
+    (htx : tx.length = 12) (hcolon : (58 : UInt8) ∉ ru) (hutf : validUtf8 (ru ++ 58 :: lu) = true)
+    (hs : Sized (IcePairs.connectivityCheck tx lu ru role prio tie nom)) :
+    IceAuth.codeAuth P ru rpwd (encode P (IcePairs.connectivityCheck tx lu ru role prio tie nom) (some rpwd) true) = true := by
+  have hattrs : (IcePairs.connectivityCheck tx lu ru role prio tie nom).attrs =
+      [IcePairs.software] ++ Attr.username (ru ++ 58 :: lu) ::
+        ((IcePairs.connectivityCheck tx lu ru role prio tie nom).attrs.drop 2) := by
+    cases role <;> cases nom <;> simp [IcePairs.connectivityCheck]
+  have hwf : (IcePairs.connectivityCheck tx lu ru role prio tie nom).Wf := by
+    refine ⟨htx, ?_⟩
+    intro a ha
+    cases role <;> cases nom <;> simp [IcePairs.connectivityCheck, IcePairs.software] at ha <;>
+      rcases ha with rfl | rfl | rfl | rfl | rfl <;> trivial
+  exact IceAuth.codeAuth_complete P ru rpwd lu _ true [IcePairs.software] _ hattrs (by decide) hcolon hutf hwf hs
 
 /-! ### candidate lines (`to_sdp` / `from_sdp`)
 
